@@ -21,6 +21,26 @@ import (
 // IPv4-mapped for addresses, nil ≡ empty for the hardware address and for
 // empty option values.
 
+// c01Refused: malformed packets (fresh copies each time) whose rejection happens midway through the options.
+func c01Refused() [][]byte {
+	long := &dhcpv4.DHCPv4{OpCode: 1, HWType: 1, ClientHWAddr: net.HardwareAddr{1, 2, 3, 4, 5, 6}, Options: dhcpv4.Options{}}
+	v := make([]byte, 700)
+	for i := range v {
+		v[i] = 0xB0 | byte(i&0xf)
+	}
+	long.Options[43] = v
+	long.Options[12] = []byte("refused")
+	full := long.ToBytes()
+	var out [][]byte
+	for _, cut := range []int{100, 239, 245, 240 + 257 + 40, 240 + 2*257 + 40, len(full) - 1} {
+		if cut < len(full) {
+			out = append(out, append([]byte{}, full[:cut]...))
+		}
+	}
+	out = append(out, append(append([]byte{}, full[:240]...), 43, 200, 1, 2, 3))
+	return out
+}
+
 var c01 = newChk("C01", "roundtrip",
 	"generated DHCPv4 packet values (C01 domain) encoded then decoded; non-trivial = ≥1 option and one of {value >255 bytes, empty value, chaddr length ≠ 6, non-empty sname/file, ≥4 options}; distinct by hash of the encoding",
 	func(rec *obs.Rec, c gen.V4Case) *obs.Fail {
@@ -33,6 +53,14 @@ var c01 = newChk("C01", "roundtrip",
 		_ = other.ToBytes()
 		if o2, err := dhcpv4.FromBytes(other.ToBytes()); err == nil {
 			_ = o2.ToBytes()
+		}
+		// the unhappy path in between: inputs the decoder must refuse (a packet cut inside a split long option, after
+		// one and after two complete instances; inside the header; an option announcing more than is left) are
+		// decoded before this one — a decode depends on its input alone
+		for _, bad := range c01Refused() {
+			if _, err := dhcpv4.FromBytes(bad); err == nil {
+				return obs.Failf("C01/harness/poison-accepted", "a truncated packet is refused", "accepted %d bytes", len(bad))
+			}
 		}
 		_ = p.ToBytes()
 		if !bytes.Equal(enc, encCopy) {
